@@ -6,6 +6,8 @@ import "time"
 // poller goroutines, timer.Async, IO task pool, against the kernel model,
 // under every interleaving within the preemption bound.
 
+var verifC18QueuedFile = false
+
 func verifC18(mode int, async bool, nconns int, backlog, deadline, racingClose, peerData bool, preempt int) {
 	vkReset()
 	vk.regime = vkBuffered
@@ -37,6 +39,13 @@ func verifC18(mode int, async bool, nconns int, backlog, deadline, racingClose, 
 	if nconns > 0 {
 		if backlog {
 			_, _ = conns[0].Write([]byte("abc"))
+			if verifC18QueuedFile {
+				// a file queued behind the backlog: the engine dups its descriptor
+				_, _ = conns[0].Sendfile(vkNewFile([]byte("xyz"), 0), 0)
+			}
+		} else if verifC18QueuedFile {
+			// a file alone in the queue (the socket takes one byte, the rest waits)
+			_, _ = conns[0].Sendfile(vkNewFile([]byte("xyz"), 0), 0)
 		}
 		if deadline {
 			_ = conns[0].SetDeadline(time.Now().Add(time.Second))
@@ -58,7 +67,9 @@ func verifC18(mode int, async bool, nconns int, backlog, deadline, racingClose, 
 	left := verifJoin()
 	verifAssertD(left == 0, "no-engine-goroutine-left", name+"/"+verifBlockedOn())
 	for _, f := range vk.fds {
-		if f != nil && f.kind != vkFileFd {
+		if f != nil && (f.kind != vkFileFd || f.dupped) {
+			// (a file the application opened stays the application's; a duplicate
+			// the engine made for a queued Sendfile is the engine's)
 			verifAssertD(!f.open, "every-descriptor-released", name)
 		}
 	}
@@ -173,5 +184,15 @@ func verifHarness_C18_stop_with_pending_dial() {
 	}
 	verifAssertD(calls == 1, "dial-outcome-reported-exactly-once", name+"/stop")
 	verifAssertD(okCalls == 0 || closes == 1, "close-notification-delivered-for-every-connection-before-stop-returns", name+"/dialed")
+	verifAssert(false, "witness")
+}
+
+// Stop with a Sendfile still queued (alone, or behind a buffered write): the
+// descriptor the engine duplicated for it is released as well.
+func verifHarness_C18_stop_with_queued_sendfile() {
+	verifBound("preemptions", 1)
+	verifC18QueuedFile = true
+	verifC18(verifChoose("mode", 3), false, 1, verifChoose("buffer_first", 2) == 1, false, false, false, 1)
+	verifC18QueuedFile = false
 	verifAssert(false, "witness")
 }
